@@ -141,35 +141,29 @@ def run(model, rep):
     rep.floor('C17.K1', 3)
 
     # ---------------- GATE
+    # the assignment loop abstractly evaluated: rename(name) exactly when should_rename(name) holds or the original name was taken
+    from . import assign_enum
     na = model.func('python_minifier.rename.renamer.NameAssigner.__call__')
-    F = Facts(na.node)
-    n = 0
-    for c in calls(na.node):
-        if isinstance(c.func, ast.Attribute) and c.func.attr == 'rename' and src(c.func.value) == 'binding':
-            n += 1
-            facts = F.facts_at(c)
-            ok = facts is not None and any(p and k.startswith('should_rename(') for (k, p) in facts)
-            arg = src(c.args[0]) if c.args else ''
-            # the same candidate name that was tested
-            same = facts is not None and any(p and k.startswith('should_rename(') and arg in k for (k, p) in facts)
-            rep.check(ok and same, 'C17.GATE', na.loc(c), src(c), 'under should_rename(binding, %s, scope)' % arg,
-                      'binding.rename() is not guarded by the profitability test of the same candidate name; facts: %s' % fact_texts(facts)[:6], key='C17.GATE|rename-call')
-    helper = model.funcs.get(na.qual + '.should_rename')
-    if helper is None:
-        raise AnalysisError('local helper should_rename not found in NameAssigner.__call__')
-    HF = Facts(helper.node)
-    for (ret, facts) in HF.returns:
-        v = ret.value
-        if isinstance(v, ast.Constant) and v.value is True:
-            n += 1
-            profitable = any(p and '.should_rename(' in k for (k, p) in facts)
-            taken = any((not p) and 'is_available(binding.name' in k.replace('self.', '') for (k, p) in facts)
-            rep.check(profitable or taken, 'C17.GATE', helper.loc(ret), 'return True', 'profitable' if profitable else 'original name no longer available',
-                      'should_rename returns True although the rename is neither profitable nor forced; facts: %s' % fact_texts(facts)[:6],
-                      key='C17.GATE|helper|' + ('profit' if profitable else 'taken' if taken else 'other'))
-        elif not (isinstance(v, ast.Constant) and v.value is False):
-            n += 1
-            rep.violation('C17.GATE', helper.loc(ret), 'return ' + src(v), 'helper returns a computed value', key='C17.GATE|helper|computed')
+    groups = {'profitable': [], 'forced': [], 'pinned': []}
+    n_sc = 0
+    for sc, obs in assign_enum.enumerate_loop(model):
+        n_sc += 1
+        want = assign_enum.expect_rename(sc)
+        g = 'profitable' if sc['profitable'] else 'forced' if want else 'pinned'
+        for o in obs:
+            did = bool(o['renamed_to'])
+            if did != want:
+                groups[g].append('%s binding %s although %s' % (o['where'], 'renamed to %s' % o['renamed_to'] if did else 'not renamed',
+                                                              ', '.join('%s=%s' % kv for kv in sorted(sc.items()))))
+            elif did and (len(o['renamed_to']) != 1 or o['renamed_to'][0] not in o['asked']):
+                groups[g].append('%s binding renamed to %s but profitability was asked for %s' % (o['where'], o['renamed_to'], o['asked']))
+            elif not did and o['pinned'] < 1:
+                groups[g].append('%s binding neither renamed nor pinned (%s)' % (o['where'], sc))
+    texts = {'profitable': 'should_rename(name) true -> rename(that name)', 'forced': 'unprofitable, but the original name was given away -> renamed anyway',
+             'pinned': 'unprofitable and the original name still usable (or not a NameBinding, or reserved for itself) -> pinned, not renamed'}
+    for g in ('profitable', 'forced', 'pinned'):
+        rep.check(not groups[g], 'C17.GATE', na.loc(), 'assignment loop, %s scenarios (of %d)' % (g, n_sc), texts[g],
+                  'the name-assignment loop deviates from the cost gate: %s' % '; '.join(groups[g][:3]), key='C17.GATE|loop|' + g, cells=2 * sum(1 for sc_ in assign_enum.scenarios() if ('profitable' if sc_['profitable'] else 'forced' if assign_enum.expect_rename(sc_) else 'pinned') == g))
     rep.floor('C17.GATE', 3)
 
     # ---------------- DIR
